@@ -198,5 +198,26 @@ pub fn __vx_extend<T, I: IntoIterator<Item = T>>(v: &mut Vec<T>, i: I)
     ensures final(v)@ == old(v)@ + yielded::<T, I>(i)
 { v.extend(i) }
 
+/// assumed std contract: Option::filter keeps the value iff the predicate holds for it
+pub assume_specification<T, P: FnOnce(&T) -> bool>[ Option::<T>::filter::<P> ](o: Option<T>, p: P) -> (r: Option<T>)
+    requires o matches Some(x) ==> call_requires(p, (&x,)),
+    ensures o is None ==> r is None,
+            o matches Some(x) ==> (call_ensures(p, (&x,), true) && r == Some(x)) || (call_ensures(p, (&x,), false) && r is None);
+
+pub open spec fn __vx_yields_ok<'a, T, U, E, F: Fn(&'a T) -> Result<U, E>>(f: F, x: &'a T) -> bool {
+    exists|u: U| call_ensures(f, (x,), Ok::<U, E>(u))
+}
+/// T16 (trusted std semantics): `s.iter().map(f).collect::<Result<Vec<_>, _>>()` applies f to the elements in order and
+/// yields all results, or the first error
+#[verifier::external_body]
+pub fn __vx_try_map_collect<'a, T, U, E, F: Fn(&'a T) -> Result<U, E>>(s: &'a [T], f: F) -> (r: Result<Vec<U>, E>)
+    requires forall|i: int| 0 <= i < s@.len() ==> call_requires(f, (&#[trigger] s@[i],)),
+    ensures match r {
+        Ok(v) => v@.len() == s@.len() && forall|i: int| 0 <= i < s@.len() ==> call_ensures(f, (&#[trigger] s@[i],), Ok(v@[i])),
+        Err(e) => exists|k: int| 0 <= k < s@.len() && call_ensures(f, (&#[trigger] s@[k],), Err(e))
+            && forall|i: int| 0 <= i < k ==> __vx_yields_ok(f, &#[trigger] s@[i]),
+    }
+{ s.iter().map(f).collect::<Result<Vec<_>, _>>() }
+
 } // verus!
 } // mod vx_ord
